@@ -7,7 +7,7 @@
    (closing what they close on the way out) none is left, and everything ever opened is closed. *)
 From Coq Require Import List NArith Bool.
 Import ListNotations.
-From NV Require Import model.Lifecycle proofs.Lifecycle_proofs.
+From NV Require Import gen.Tab_Lifecycle model.Lifecycle proofs.Lifecycle_proofs.
 
 (* whenever the run state is Stopped, every goroutine's guard holds (it returns) and every resource is closed *)
 Theorem C49_stopped_released : forall c ops,
@@ -52,6 +52,22 @@ Theorem C49_up_until_stopped : forall c ops, let s := run (ready c) ops in
   (l_state s = SReady \/ l_state s = SStarted) -> l_closed s = [].
 Proof. exact started_all_open. Qed.
 Print Assumptions C49_up_until_stopped.
+
+(* Stop's tunnel-closing phase (after the context is cancelled, before the interface is closed) performs no channel send
+   that only a cancelled goroutine could serve: the only such channel is the lighthouse query channel, and - measured on
+   the real Interface.send for every message type, rebind state and node kind on every run - sending a CloseTunnel never
+   puts anything into it.  The second statement shows the obligation is real: in state Stopping a send into that channel
+   has no live receiver. *)
+Theorem C49_stop_phase_never_blocks : forall c ops,
+  let s := run (ready c) ops in
+  (forall q, lookup_queries send_queries t_close_tunnel true false = Some q -> may_block s (stop_sends q) = false) /\
+  (l_state s = SStopping -> may_block s (stop_sends 1) = true) /\
+  forallb (fun r => let '(t, _, _, n) := r in negb (N.eqb t t_close_tunnel) || N.eqb n 0) send_queries = true.
+Proof.
+  intros c ops s. split; [exact (stop_phase_never_blocks c ops)|]. split; [exact (stopping_query_send_would_block c ops)|].
+  exact (proj1 close_tunnel_never_queries).
+Qed.
+Print Assumptions C49_stop_phase_never_blocks.
 
 Example C49_nonvacuous :
   released (run (ready ex_cfg) [OStart true; ORebind; OStop]) = true /\
